@@ -167,6 +167,14 @@ fn small_family(len: usize, fam: usize, rng: &mut Rng) -> (Vec<u8>, &'static str
             }
             "AR2-header+BZ"
         }
+        14 => {
+            // header text fields in multi-byte UTF-8 (character boundaries anywhere in 0..24)
+            b = enc::utf8_fill(rng, len);
+            if len >= 20 {
+                b[12..20].copy_from_slice(&[0, 0, 0x4e, 0x20, 0, 0, 0, 1]);
+            }
+            "utf8-text-header"
+        }
         _ => {
             b = rng.bytes(len);
             "random"
@@ -190,9 +198,9 @@ pub fn run(ctx: &mut Ctx) {
         println!("replay: recorded input was abbreviated; re-running the whole seeded workload");
     }
     ctx.rule = "a case is one byte string wrapped as File / Record (owned and borrowed) / Chunk and driven through records, header (+accessors), compressed, decompress (and the decompressed record's own calls), messages, scan, split_compressed_records and {:?} of each; \
-trivial = empty input; distinct = distinct input contents; families: every length 0..=64 x 14 content families, every truncation point of valid volumes/containers/chunks, corrupted size prefix at every record, 1-16 bit flips in bzip2 bodies, hostile message streams (C04's generators) as raw records and compressed inside volumes, random bytes to 8 KiB; verdict monitors = panic hook and a per-call CPU-time budget of 20 s (thread CPU clock, not wall time) as the termination monitor"
+trivial = empty input; distinct = distinct input contents; families: every length 0..=64 x 15 content families (a second draw of the random one), every truncation point of valid volumes/containers/chunks, corrupted size prefix at every record, 1-16 bit flips in bzip2 bodies, hostile message streams (C04's generators) as raw records and compressed inside volumes, random bytes to 8 KiB; verdict monitors = panic hook and a per-call CPU-time budget of 20 s (thread CPU clock, not wall time) as the termination monitor"
         .into();
-    ctx.exhaustive = Some("every length 0..=64 for each of 14 content families; every truncation point of the generated valid files in this run".into());
+    ctx.exhaustive = Some("every length 0..=64 for each of 15 content families; every truncation point of the generated valid files in this run".into());
     ctx.floor_evaluations = 1_000;
     let seed = ctx.seed;
     {
@@ -207,7 +215,7 @@ trivial = empty input; distinct = distinct input contents; families: every lengt
         let mut rng = Rng::derive(seed, 6, 0);
         let mut obs = Obs::new();
         for len in 0..=64usize {
-            for fam in 0..14usize {
+            for fam in 0..16usize {
                 let (b, name) = small_family(len, fam, &mut rng);
                 run_input(&mut obs, &b, name);
                 obs.count("boundary_length_inputs", 1);
